@@ -350,6 +350,7 @@ pub fn decorated_text(spec: &Spec, toks: &[usize], style: u8) -> (String, usize)
         1 => ("", " ", "  "),
         2 => ("\n ", "\t", "\n"),
         3 => ("  ", "  \n ", " \t \n\n"),
+        4 => ("\r\n", " \r\n", "\r\n"),
         _ => ("", " ", ""),
     };
     let mut s = String::from(lead);
@@ -399,7 +400,7 @@ pub fn check_c04_known(w: &World, s: &dyn Sut, sentence: &[usize], shape: u8, st
         }
         // built-in lexer: white space before, between and after the tokens must not move the location
         if var.builtin && problem.is_none() {
-            for style in 1..=3u8 {
+            for style in 1..=4u8 {
                 let (text, end) = decorated_text(spec, toks, style);
                 let ctx = Ctx::new(Plan::default());
                 let out = catch_unwind(AssertUnwindSafe(|| s.parse_str(&ctx, &text)));
